@@ -18,8 +18,8 @@
    The hypothesis cycles < 2^64 + 3 is needed: beyond it Stim refuses the repetition count and the exporter raises. *)
 From Coq Require Import ZArith List Bool String Lia.
 Import ListNotations.
-From QCE Require Import Base.Prelude Core.Model Core.Run C08.Tree C08.Model C08.Proofs Bridge.TreeOfOp C09.Stim C09.Model
-                        LibBuild.Model LibBuild.Cert LibBuild.Proofs LibBuild.StimBridge LibBuild.StimBridgeProofs.
+From QCE Require Import Base.Prelude Core.Model Core.Run C08.Tree C08.Model C08.Proofs Bridge.TreeOfOp C09.Stim C09.Spec C09.Sem
+                        C09.Model C09.Proofs LibBuild.Model LibBuild.Cert LibBuild.Proofs LibBuild.StimBridge LibBuild.StimBridgeProofs.
 From Gen Require Import Ident Classes Tables.
 Open Scope list_scope.
 Open Scope Z_scope.
@@ -348,6 +348,27 @@ Theorem chain3_all_cycles : forall rf init anc cycles, 0 <= cycles < two64 + 3 -
 Proof.
   intros rf init anc. change (all_cycles_ok (desc_of_chain 3 rf) init anc). revert init anc.
   destruct rf; states_solve.
+Qed.
+
+(* ------------------------------------------------------------------ the record, every cycle count
+   C09_chain_record carried over to the export of the model circuit: executing its gates, resets and measurements (C09's
+   semantics) gives exactly the protocol's measurement record *)
+Theorem chain2_record_all_cycles : forall rf init anc cycles,
+  List.length init = 2%nat -> (List.length anc <= 1)%nat -> 0 <= cycles < two64 + 3 ->
+  exec (gate_part (lib_export (desc_of_chain 2 rf) init anc cycles))
+  = Some (protocol_record init anc (Z.to_nat cycles) rf, [], []).
+Proof.
+  intros rf init anc cycles Hi Ha Hc. destruct (chain2_all_cycles rf init anc cycles Hc) as [_ S].
+  refine (record_of_skeleton _ init anc _ _ _ _ _ (chain_record 2 rf init anc (Z.to_nat cycles) _ Hi _) S); simpl; lia.
+Qed.
+
+Theorem chain3_record_all_cycles : forall rf init anc cycles,
+  List.length init = 3%nat -> (List.length anc <= 2)%nat -> 0 <= cycles < two64 + 3 ->
+  exec (gate_part (lib_export (desc_of_chain 3 rf) init anc cycles))
+  = Some (protocol_record init anc (Z.to_nat cycles) rf, [], []).
+Proof.
+  intros rf init anc cycles Hi Ha Hc. destruct (chain3_all_cycles rf init anc cycles Hc) as [_ S].
+  refine (record_of_skeleton _ init anc _ _ _ _ _ (chain_record 3 rf init anc (Z.to_nat cycles) _ Hi _) S); simpl; lia.
 Qed.
 
 (* ------------------------------------------------------------------ non-vacuity *)
